@@ -1,7 +1,842 @@
-//! part of the `enc.*` family (stub; filled in by the owner).
+//! network-layer part of the `enc.*` family (C08): Ipv6Header, Ipv6FragmentHeader, Ipv4Header,
+//! IpAuthHeader, Ipv6RawExtHeader and their slice types.
+//!
+//! ops per type t in {ipv6, ipv6frag, ipv4, auth, rawext}:
+//!   enc.t.to_bytes <fields>      value via the checked constructors -> all serialisers, header_len
+//!   enc.t.rt <fields> <tail>     from_slice(to_bytes(v) ++ tail)
+//!   enc.t.from_slice <hex>       all fields + rest window
+//!   enc.t.redec <hex>            from_slice, to_bytes of the result, from_slice(bytes ++ rest)
+//!   enc.tslice.from_slice <hex>  every accessor of the slice type + to_header
 #![allow(unused_imports, dead_code)]
 use crate::util::*;
+use etherparse::err::{LenError, ValueTooBigError};
+use etherparse::*;
 
-pub fn run(_op: &str, _a: &[&str]) -> Option<String> {
-    None
+fn b01(b: bool) -> &'static str {
+    if b {
+        "1"
+    } else {
+        "0"
+    }
+}
+
+fn boolarg(s: &str) -> Option<bool> {
+    match s {
+        "0" => Some(false),
+        "1" => Some(true),
+        _ => None,
+    }
+}
+
+fn len_err(e: &LenError) -> String {
+    format!(
+        "len(req={},len={},src={:?},layer={:?},off={})",
+        e.required_len, e.len, e.len_source, e.layer, e.layer_start_offset
+    )
+}
+
+fn too_big<T: core::fmt::Display + core::fmt::Debug + Clone + Eq + core::hash::Hash>(
+    e: &ValueTooBigError<T>,
+) -> String {
+    format!(
+        "err(toobig(actual={},max={},type={:?}))",
+        e.actual, e.max_allowed, e.value_type
+    )
+}
+
+fn same_or(reference: &[u8], x: &[u8]) -> String {
+    if reference == x {
+        "same".to_string()
+    } else {
+        to_hex(x)
+    }
+}
+
+// ------------------------------------------------------------------------------------------
+// Ipv6Header
+
+fn ipv6_fields(h: &Ipv6Header) -> String {
+    format!(
+        "tc={},fl={},plen={},nh={},hop={},src={},dst={}",
+        h.traffic_class,
+        h.flow_label.value(),
+        h.payload_length,
+        h.next_header.0,
+        h.hop_limit,
+        to_hex(&h.source),
+        to_hex(&h.destination)
+    )
+}
+
+fn ipv6_err(e: &err::ipv6::HeaderSliceError) -> String {
+    use err::ipv6::{HeaderError::*, HeaderSliceError::*};
+    match e {
+        Len(l) => format!("err({})", len_err(l)),
+        Content(UnexpectedVersion { version_number }) => format!("err(version({}))", version_number),
+    }
+}
+
+fn ipv6_value(a: &[&str]) -> Option<Result<Ipv6Header, String>> {
+    if let [tc, fl, plen, nh, hop, src, dst] = a {
+        let tc: u8 = num(tc)?;
+        let fl: u32 = num(fl)?;
+        let plen: u16 = num(plen)?;
+        let nh: u8 = num(nh)?;
+        let hop: u8 = num(hop)?;
+        let src: [u8; 16] = hex(src)?.try_into().ok()?;
+        let dst: [u8; 16] = hex(dst)?.try_into().ok()?;
+        let fl = match Ipv6FlowLabel::try_new(fl) {
+            Ok(v) => v,
+            Err(e) => return Some(Err(too_big(&e))),
+        };
+        Some(Ok(Ipv6Header {
+            traffic_class: tc,
+            flow_label: fl,
+            payload_length: plen,
+            next_header: IpNumber(nh),
+            hop_limit: hop,
+            source: src,
+            destination: dst,
+        }))
+    } else {
+        None
+    }
+}
+
+fn ipv6_dec(b: &[u8]) -> String {
+    match Ipv6Header::from_slice(b) {
+        Err(e) => ipv6_err(&e),
+        Ok((h, rest)) => format!("ok({},rest={})", ipv6_fields(&h), win(b, rest)),
+    }
+}
+
+fn ipv6_ops(op: &str, a: &[&str]) -> Option<String> {
+    Some(match op {
+        "enc.ipv6.to_bytes" => match ipv6_value(a)? {
+            Err(e) => e,
+            Ok(h) => {
+                let bytes = h.to_bytes();
+                let mut w = Vec::new();
+                h.write(&mut w).unwrap();
+                format!(
+                    "ok(bytes={},write={},len={})",
+                    to_hex(&bytes),
+                    same_or(&bytes, &w),
+                    h.header_len()
+                )
+            }
+        },
+        "enc.ipv6.rt" => {
+            let (tail, fields) = a.split_last()?;
+            let tail = hex(tail)?;
+            match ipv6_value(fields)? {
+                Err(e) => e,
+                Ok(h) => {
+                    let mut b = h.to_bytes().to_vec();
+                    b.extend_from_slice(&tail);
+                    ipv6_dec(&b)
+                }
+            }
+        }
+        "enc.ipv6.from_slice" => {
+            if a.len() != 1 {
+                return None;
+            }
+            ipv6_dec(&hex(a[0])?)
+        }
+        "enc.ipv6.redec" => {
+            if a.len() != 1 {
+                return None;
+            }
+            let b = hex(a[0])?;
+            match Ipv6Header::from_slice(&b) {
+                Err(e) => ipv6_err(&e),
+                Ok((h, rest)) => {
+                    let bytes = h.to_bytes();
+                    let mut again = bytes.to_vec();
+                    again.extend_from_slice(rest);
+                    format!("ok(bytes={},again={})", to_hex(&bytes), ipv6_dec(&again))
+                }
+            }
+        }
+        "enc.ipv6slice.from_slice" => {
+            if a.len() != 1 {
+                return None;
+            }
+            let b = hex(a[0])?;
+            match Ipv6HeaderSlice::from_slice(&b) {
+                Err(e) => ipv6_err(&e),
+                Ok(s) => format!(
+                    "ok(slice={},version={},tc={},ecn={},dscp={},fl={},plen={},nh={},hop={},src={},dst={},header_len={},hdr=({}))",
+                    win(&b, s.slice()),
+                    s.version(),
+                    s.traffic_class(),
+                    s.ecn().value(),
+                    s.dscp().value(),
+                    s.flow_label().value(),
+                    s.payload_length(),
+                    s.next_header().0,
+                    s.hop_limit(),
+                    to_hex(&s.source()),
+                    to_hex(&s.destination()),
+                    s.header_len(),
+                    ipv6_fields(&s.to_header())
+                ),
+            }
+        }
+        _ => return None,
+    })
+}
+
+// ------------------------------------------------------------------------------------------
+// Ipv6FragmentHeader
+
+fn frag_fields(h: &Ipv6FragmentHeader) -> String {
+    format!(
+        "nh={},fo={},mf={},id={}",
+        h.next_header.0,
+        h.fragment_offset.value(),
+        b01(h.more_fragments),
+        h.identification
+    )
+}
+
+fn frag_value(a: &[&str]) -> Option<Result<Ipv6FragmentHeader, String>> {
+    if let [nh, fo, mf, id] = a {
+        let nh: u8 = num(nh)?;
+        let fo: u16 = num(fo)?;
+        let mf = boolarg(mf)?;
+        let id: u32 = num(id)?;
+        let fo = match IpFragOffset::try_new(fo) {
+            Ok(v) => v,
+            Err(e) => return Some(Err(too_big(&e))),
+        };
+        Some(Ok(Ipv6FragmentHeader::new(IpNumber(nh), fo, mf, id)))
+    } else {
+        None
+    }
+}
+
+fn frag_dec(b: &[u8]) -> String {
+    match Ipv6FragmentHeader::from_slice(b) {
+        Err(e) => format!("err({})", len_err(&e)),
+        Ok((h, rest)) => format!("ok({},rest={})", frag_fields(&h), win(b, rest)),
+    }
+}
+
+fn frag_ops(op: &str, a: &[&str]) -> Option<String> {
+    Some(match op {
+        "enc.ipv6frag.to_bytes" => match frag_value(a)? {
+            Err(e) => e,
+            Ok(h) => {
+                let bytes = h.to_bytes();
+                let mut w = Vec::new();
+                h.write(&mut w).unwrap();
+                format!(
+                    "ok(bytes={},write={},len={},frag={})",
+                    to_hex(&bytes),
+                    same_or(&bytes, &w),
+                    h.header_len(),
+                    b01(h.is_fragmenting_payload())
+                )
+            }
+        },
+        "enc.ipv6frag.rt" => {
+            let (tail, fields) = a.split_last()?;
+            let tail = hex(tail)?;
+            match frag_value(fields)? {
+                Err(e) => e,
+                Ok(h) => {
+                    let mut b = h.to_bytes().to_vec();
+                    b.extend_from_slice(&tail);
+                    frag_dec(&b)
+                }
+            }
+        }
+        "enc.ipv6frag.from_slice" => {
+            if a.len() != 1 {
+                return None;
+            }
+            frag_dec(&hex(a[0])?)
+        }
+        "enc.ipv6frag.redec" => {
+            if a.len() != 1 {
+                return None;
+            }
+            let b = hex(a[0])?;
+            match Ipv6FragmentHeader::from_slice(&b) {
+                Err(e) => format!("err({})", len_err(&e)),
+                Ok((h, rest)) => {
+                    let bytes = h.to_bytes();
+                    let mut again = bytes.to_vec();
+                    again.extend_from_slice(rest);
+                    format!("ok(bytes={},again={})", to_hex(&bytes), frag_dec(&again))
+                }
+            }
+        }
+        "enc.ipv6fragslice.from_slice" => {
+            if a.len() != 1 {
+                return None;
+            }
+            let b = hex(a[0])?;
+            match Ipv6FragmentHeaderSlice::from_slice(&b) {
+                Err(e) => format!("err({})", len_err(&e)),
+                Ok(s) => format!(
+                    "ok(slice={},nh={},fo={},mf={},id={},frag={},hdr=({}))",
+                    win(&b, s.slice()),
+                    s.next_header().0,
+                    s.fragment_offset().value(),
+                    b01(s.more_fragments()),
+                    s.identification(),
+                    b01(s.is_fragmenting_payload()),
+                    frag_fields(&s.to_header())
+                ),
+            }
+        }
+        _ => return None,
+    })
+}
+
+// ------------------------------------------------------------------------------------------
+// Ipv4Header
+
+fn ipv4_fields(h: &Ipv4Header) -> String {
+    format!(
+        "dscp={},ecn={},tlen={},id={},df={},mf={},fo={},ttl={},proto={},ck={},src={},dst={},opts={}",
+        h.dscp.value(),
+        h.ecn.value(),
+        h.total_len,
+        h.identification,
+        b01(h.dont_fragment),
+        b01(h.more_fragments),
+        h.fragment_offset.value(),
+        h.time_to_live,
+        h.protocol.0,
+        h.header_checksum,
+        to_hex(&h.source),
+        to_hex(&h.destination),
+        to_hex(&h.options[..])
+    )
+}
+
+fn ipv4_err(e: &err::ipv4::HeaderSliceError) -> String {
+    use err::ipv4::{HeaderError::*, HeaderSliceError::*};
+    match e {
+        Len(l) => format!("err({})", len_err(l)),
+        Content(UnexpectedVersion { version_number }) => format!("err(version({}))", version_number),
+        Content(HeaderLengthSmallerThanHeader { ihl }) => format!("err(ihl({}))", ihl),
+    }
+}
+
+fn ipv4_value(a: &[&str]) -> Option<Result<Ipv4Header, String>> {
+    if let [dscp, ecn, tlen, id, df, mf, fo, ttl, proto, ck, src, dst, opts] = a {
+        let dscp: u8 = num(dscp)?;
+        let ecn: u8 = num(ecn)?;
+        let tlen: u16 = num(tlen)?;
+        let id: u16 = num(id)?;
+        let df = boolarg(df)?;
+        let mf = boolarg(mf)?;
+        let fo: u16 = num(fo)?;
+        let ttl: u8 = num(ttl)?;
+        let proto: u8 = num(proto)?;
+        let ck: u16 = num(ck)?;
+        let src: [u8; 4] = hex(src)?.try_into().ok()?;
+        let dst: [u8; 4] = hex(dst)?.try_into().ok()?;
+        let opts = hex(opts)?;
+        let dscp = match IpDscp::try_new(dscp) {
+            Ok(v) => v,
+            Err(e) => return Some(Err(too_big(&e))),
+        };
+        let ecn = match IpEcn::try_new(ecn) {
+            Ok(v) => v,
+            Err(e) => return Some(Err(too_big(&e))),
+        };
+        let fo = match IpFragOffset::try_new(fo) {
+            Ok(v) => v,
+            Err(e) => return Some(Err(too_big(&e))),
+        };
+        let options = match Ipv4Options::try_from(&opts[..]) {
+            Ok(v) => v,
+            Err(e) => return Some(Err(format!("err(badoptlen({}))", e.bad_len))),
+        };
+        Some(Ok(Ipv4Header {
+            dscp,
+            ecn,
+            total_len: tlen,
+            identification: id,
+            dont_fragment: df,
+            more_fragments: mf,
+            fragment_offset: fo,
+            time_to_live: ttl,
+            protocol: IpNumber(proto),
+            header_checksum: ck,
+            source: src,
+            destination: dst,
+            options,
+        }))
+    } else {
+        None
+    }
+}
+
+fn ipv4_dec(b: &[u8]) -> String {
+    match Ipv4Header::from_slice(b) {
+        Err(e) => ipv4_err(&e),
+        Ok((h, rest)) => format!("ok({},rest={})", ipv4_fields(&h), win(b, rest)),
+    }
+}
+
+fn ipv4_ops(op: &str, a: &[&str]) -> Option<String> {
+    Some(match op {
+        "enc.ipv4.to_bytes" => match ipv4_value(a)? {
+            Err(e) => e,
+            Ok(h) => {
+                let bytes = h.to_bytes();
+                let mut w = Vec::new();
+                h.write(&mut w).unwrap();
+                let mut wr = Vec::new();
+                h.write_raw(&mut wr).unwrap();
+                format!(
+                    "ok(bytes={},write={},write_raw={},len={},ihl={},calc={})",
+                    to_hex(&bytes),
+                    same_or(&bytes, &w),
+                    same_or(&bytes, &wr),
+                    h.header_len(),
+                    h.ihl(),
+                    h.calc_header_checksum()
+                )
+            }
+        },
+        "enc.ipv4.rt" => {
+            let (tail, fields) = a.split_last()?;
+            let tail = hex(tail)?;
+            match ipv4_value(fields)? {
+                Err(e) => e,
+                Ok(h) => {
+                    let mut b = h.to_bytes().to_vec();
+                    b.extend_from_slice(&tail);
+                    ipv4_dec(&b)
+                }
+            }
+        }
+        "enc.ipv4.from_slice" => {
+            if a.len() != 1 {
+                return None;
+            }
+            ipv4_dec(&hex(a[0])?)
+        }
+        "enc.ipv4.redec" => {
+            if a.len() != 1 {
+                return None;
+            }
+            let b = hex(a[0])?;
+            match Ipv4Header::from_slice(&b) {
+                Err(e) => ipv4_err(&e),
+                Ok((h, rest)) => {
+                    let bytes = h.to_bytes();
+                    let mut again = bytes.to_vec();
+                    again.extend_from_slice(rest);
+                    format!("ok(bytes={},again={})", to_hex(&bytes), ipv4_dec(&again))
+                }
+            }
+        }
+        "enc.ipv4slice.from_slice" => {
+            if a.len() != 1 {
+                return None;
+            }
+            let b = hex(a[0])?;
+            match Ipv4HeaderSlice::from_slice(&b) {
+                Err(e) => ipv4_err(&e),
+                Ok(s) => {
+                    let pl = match s.payload_len() {
+                        Ok(n) => format!("ok({})", n),
+                        Err(e) => format!("err({})", len_err(&e)),
+                    };
+                    format!(
+                        "ok(slice={},version={},ihl={},dscp={},ecn={},tlen={},plen={},id={},df={},mf={},fo={},ttl={},proto={},ck={},src={},dst={},opts={},frag={},hdr=({}))",
+                        win(&b, s.slice()),
+                        s.version(),
+                        s.ihl(),
+                        s.dcp().value(),
+                        s.ecn().value(),
+                        s.total_len(),
+                        pl,
+                        s.identification(),
+                        b01(s.dont_fragment()),
+                        b01(s.more_fragments()),
+                        s.fragments_offset().value(),
+                        s.ttl(),
+                        s.protocol().0,
+                        s.header_checksum(),
+                        to_hex(&s.source()),
+                        to_hex(&s.destination()),
+                        win(&b, s.options()),
+                        b01(s.is_fragmenting_payload()),
+                        ipv4_fields(&s.to_header())
+                    )
+                }
+            }
+        }
+        _ => return None,
+    })
+}
+
+// ------------------------------------------------------------------------------------------
+// IpAuthHeader
+
+fn auth_fields(h: &IpAuthHeader) -> String {
+    format!(
+        "nh={},spi={},seq={},icv={}",
+        h.next_header.0,
+        h.spi,
+        h.sequence_number,
+        to_hex(h.raw_icv())
+    )
+}
+
+fn auth_err(e: &err::ip_auth::HeaderSliceError) -> String {
+    use err::ip_auth::{HeaderError::*, HeaderSliceError::*};
+    match e {
+        Len(l) => format!("err({})", len_err(l)),
+        Content(ZeroPayloadLen) => "err(zeropayloadlen)".to_string(),
+    }
+}
+
+fn auth_value(a: &[&str]) -> Option<Result<IpAuthHeader, String>> {
+    if let [nh, spi, seq, icv] = a {
+        let nh: u8 = num(nh)?;
+        let spi: u32 = num(spi)?;
+        let seq: u32 = num(seq)?;
+        let icv = hex(icv)?;
+        Some(match IpAuthHeader::new(IpNumber(nh), spi, seq, &icv) {
+            Ok(h) => Ok(h),
+            Err(e) => Err(format!("err(icv({:?}))", e)),
+        })
+    } else {
+        None
+    }
+}
+
+fn auth_dec(b: &[u8]) -> String {
+    match IpAuthHeader::from_slice(b) {
+        Err(e) => auth_err(&e),
+        Ok((h, rest)) => format!("ok({},rest={})", auth_fields(&h), win(b, rest)),
+    }
+}
+
+fn auth_ops(op: &str, a: &[&str]) -> Option<String> {
+    Some(match op {
+        "enc.auth.to_bytes" => match auth_value(a)? {
+            Err(e) => e,
+            Ok(h) => {
+                let bytes = h.to_bytes();
+                let mut w = Vec::new();
+                h.write(&mut w).unwrap();
+                format!(
+                    "ok(bytes={},write={},len={},icv={})",
+                    to_hex(&bytes),
+                    same_or(&bytes, &w),
+                    h.header_len(),
+                    to_hex(h.raw_icv())
+                )
+            }
+        },
+        "enc.auth.rt" => {
+            let (tail, fields) = a.split_last()?;
+            let tail = hex(tail)?;
+            match auth_value(fields)? {
+                Err(e) => e,
+                Ok(h) => {
+                    let mut b = h.to_bytes().to_vec();
+                    b.extend_from_slice(&tail);
+                    auth_dec(&b)
+                }
+            }
+        }
+        "enc.auth.from_slice" => {
+            if a.len() != 1 {
+                return None;
+            }
+            auth_dec(&hex(a[0])?)
+        }
+        "enc.auth.redec" => {
+            if a.len() != 1 {
+                return None;
+            }
+            let b = hex(a[0])?;
+            match IpAuthHeader::from_slice(&b) {
+                Err(e) => auth_err(&e),
+                Ok((h, rest)) => {
+                    let bytes = h.to_bytes();
+                    let mut again = bytes.to_vec();
+                    again.extend_from_slice(rest);
+                    format!("ok(bytes={},again={})", to_hex(&bytes), auth_dec(&again))
+                }
+            }
+        }
+        "enc.authslice.from_slice" => {
+            if a.len() != 1 {
+                return None;
+            }
+            let b = hex(a[0])?;
+            match IpAuthHeaderSlice::from_slice(&b) {
+                Err(e) => auth_err(&e),
+                Ok(s) => format!(
+                    "ok(slice={},nh={},spi={},seq={},icv={},hdr=({}))",
+                    win(&b, s.slice()),
+                    s.next_header().0,
+                    s.spi(),
+                    s.sequence_number(),
+                    win(&b, s.raw_icv()),
+                    auth_fields(&s.to_header())
+                ),
+            }
+        }
+        _ => return None,
+    })
+}
+
+// ------------------------------------------------------------------------------------------
+// Ipv6RawExtHeader
+
+fn rawext_fields(h: &Ipv6RawExtHeader) -> String {
+    format!("nh={},payload={}", h.next_header.0, to_hex(h.payload()))
+}
+
+fn rawext_value(a: &[&str]) -> Option<Result<Ipv6RawExtHeader, String>> {
+    if let [nh, payload] = a {
+        let nh: u8 = num(nh)?;
+        let payload = hex(payload)?;
+        Some(match Ipv6RawExtHeader::new_raw(IpNumber(nh), &payload) {
+            Ok(h) => Ok(h),
+            Err(e) => Err(format!("err(extlen({:?}))", e)),
+        })
+    } else {
+        None
+    }
+}
+
+fn rawext_dec(b: &[u8]) -> String {
+    match Ipv6RawExtHeader::from_slice(b) {
+        Err(e) => format!("err({})", len_err(&e)),
+        Ok((h, rest)) => format!("ok({},rest={})", rawext_fields(&h), win(b, rest)),
+    }
+}
+
+fn rawext_ops(op: &str, a: &[&str]) -> Option<String> {
+    Some(match op {
+        "enc.rawext.to_bytes" => match rawext_value(a)? {
+            Err(e) => e,
+            Ok(h) => {
+                let bytes = h.to_bytes();
+                let mut w = Vec::new();
+                h.write(&mut w).unwrap();
+                format!(
+                    "ok(bytes={},write={},len={},payload={})",
+                    to_hex(&bytes),
+                    same_or(&bytes, &w),
+                    h.header_len(),
+                    to_hex(h.payload())
+                )
+            }
+        },
+        "enc.rawext.rt" => {
+            let (tail, fields) = a.split_last()?;
+            let tail = hex(tail)?;
+            match rawext_value(fields)? {
+                Err(e) => e,
+                Ok(h) => {
+                    let mut b = h.to_bytes().to_vec();
+                    b.extend_from_slice(&tail);
+                    rawext_dec(&b)
+                }
+            }
+        }
+        "enc.rawext.from_slice" => {
+            if a.len() != 1 {
+                return None;
+            }
+            rawext_dec(&hex(a[0])?)
+        }
+        "enc.rawext.redec" => {
+            if a.len() != 1 {
+                return None;
+            }
+            let b = hex(a[0])?;
+            match Ipv6RawExtHeader::from_slice(&b) {
+                Err(e) => format!("err({})", len_err(&e)),
+                Ok((h, rest)) => {
+                    let bytes = h.to_bytes();
+                    let mut again = bytes.to_vec();
+                    again.extend_from_slice(rest);
+                    format!("ok(bytes={},again={})", to_hex(&bytes), rawext_dec(&again))
+                }
+            }
+        }
+        "enc.rawextslice.from_slice" => {
+            if a.len() != 1 {
+                return None;
+            }
+            let b = hex(a[0])?;
+            match Ipv6RawExtHeaderSlice::from_slice(&b) {
+                Err(e) => format!("err({})", len_err(&e)),
+                Ok(s) => format!(
+                    "ok(slice={},nh={},payload={},hdr=({}))",
+                    win(&b, s.slice()),
+                    s.next_header().0,
+                    win(&b, s.payload()),
+                    rawext_fields(&s.to_header())
+                ),
+            }
+        }
+        _ => return None,
+    })
+}
+
+// ------------------------------------------------------------------------------------------
+// Ipv4Extensions (optional authentication header)
+
+fn exts_fields(e: &Ipv4Extensions) -> String {
+    match &e.auth {
+        None => "auth=none".to_string(),
+        Some(h) => format!("auth=({})", auth_fields(h)),
+    }
+}
+
+fn exts_walk_err(e: &err::ipv4_exts::ExtsWalkError) -> String {
+    match e {
+        err::ipv4_exts::ExtsWalkError::ExtNotReferenced { missing_ext } => {
+            format!("err(notreferenced({}))", missing_ext.0)
+        }
+    }
+}
+
+fn exts_value(a: &[&str]) -> Option<Result<Ipv4Extensions, String>> {
+    if a.len() == 1 && a[0] == "none" {
+        return Some(Ok(Ipv4Extensions { auth: None }));
+    }
+    Some(match auth_value(a)? {
+        Err(e) => Err(e),
+        Ok(h) => Ok(Ipv4Extensions { auth: Some(h) }),
+    })
+}
+
+fn exts_write(e: &Ipv4Extensions, start: u8) -> Result<Vec<u8>, String> {
+    let mut w = Vec::new();
+    match e.write(&mut w, IpNumber(start)) {
+        Ok(()) => Ok(w),
+        Err(err::ipv4_exts::HeaderWriteError::Content(c)) => Err(exts_walk_err(&c)),
+        Err(err::ipv4_exts::HeaderWriteError::Io(_)) => Err("err(io)".to_string()),
+    }
+}
+
+fn exts_dec(start: u8, b: &[u8]) -> String {
+    match Ipv4Extensions::from_slice(IpNumber(start), b) {
+        Err(e) => auth_err(&e),
+        Ok((e, next, rest)) => format!(
+            "ok({},next={},rest={})",
+            exts_fields(&e),
+            next.0,
+            win(b, rest)
+        ),
+    }
+}
+
+fn exts_ops(op: &str, a: &[&str]) -> Option<String> {
+    let (start, a) = a.split_first()?;
+    let start: u8 = num(start)?;
+    Some(match op {
+        "enc.ipv4exts.write" => match exts_value(a)? {
+            Err(e) => e,
+            Ok(e) => {
+                let next = match e.next_header(IpNumber(start)) {
+                    Ok(n) => format!("ok({})", n.0),
+                    Err(x) => exts_walk_err(&x),
+                };
+                match exts_write(&e, start) {
+                    Err(x) => format!("{},len={},next={}", x, e.header_len(), next),
+                    Ok(bytes) => format!(
+                        "ok(bytes={},len={},next={})",
+                        to_hex(&bytes),
+                        e.header_len(),
+                        next
+                    ),
+                }
+            }
+        },
+        "enc.ipv4exts.rt" => {
+            let (tail, fields) = a.split_last()?;
+            let tail = hex(tail)?;
+            match exts_value(fields)? {
+                Err(e) => e,
+                Ok(e) => match exts_write(&e, start) {
+                    Err(x) => x,
+                    Ok(mut bytes) => {
+                        bytes.extend_from_slice(&tail);
+                        exts_dec(start, &bytes)
+                    }
+                },
+            }
+        }
+        "enc.ipv4exts.from_slice" => {
+            if a.len() != 1 {
+                return None;
+            }
+            exts_dec(start, &hex(a[0])?)
+        }
+        "enc.ipv4exts.redec" => {
+            if a.len() != 1 {
+                return None;
+            }
+            let b = hex(a[0])?;
+            match Ipv4Extensions::from_slice(IpNumber(start), &b) {
+                Err(e) => auth_err(&e),
+                Ok((e, _, rest)) => match exts_write(&e, start) {
+                    Err(x) => x,
+                    Ok(bytes) => {
+                        let mut again = bytes.clone();
+                        again.extend_from_slice(rest);
+                        format!("ok(bytes={},again={})", to_hex(&bytes), exts_dec(start, &again))
+                    }
+                },
+            }
+        }
+        "enc.ipv4extsslice.from_slice" => {
+            if a.len() != 1 {
+                return None;
+            }
+            let b = hex(a[0])?;
+            match Ipv4ExtensionsSlice::from_slice(IpNumber(start), &b) {
+                Err(e) => auth_err(&e),
+                Ok((s, next, rest)) => format!(
+                    "ok(auth={},empty={},next={},rest={},hdr=({}))",
+                    match &s.auth {
+                        None => "none".to_string(),
+                        Some(x) => win(&b, x.slice()),
+                    },
+                    b01(s.is_empty()),
+                    next.0,
+                    win(&b, rest),
+                    exts_fields(&s.to_header())
+                ),
+            }
+        }
+        _ => return None,
+    })
+}
+
+pub fn run(op: &str, a: &[&str]) -> Option<String> {
+    let mut it = op.split('.');
+    if it.next() != Some("enc") {
+        return None;
+    }
+    match it.next()? {
+        "ipv6" | "ipv6slice" => ipv6_ops(op, a),
+        "ipv6frag" | "ipv6fragslice" => frag_ops(op, a),
+        "ipv4" | "ipv4slice" => ipv4_ops(op, a),
+        "auth" | "authslice" => auth_ops(op, a),
+        "rawext" | "rawextslice" => rawext_ops(op, a),
+        "ipv4exts" | "ipv4extsslice" => exts_ops(op, a),
+        _ => None,
+    }
 }
